@@ -74,60 +74,63 @@ pub fn alias_cell_in_cell() {
 }
 
 // ---- typed content ---------------------------------------------------------------------------
-const CELL_TYPES: [Ty; 6] = [T_INT, T_FLOAT, T_BOOL, T_U_INT_FLOAT, T_ARR_INT, T_ANY];
-const RHS_TYPES: [Ty; 5] = [T_INT, T_FLOAT, T_BOOL, T_ARR_INT, T_ARR_FLOAT];
 const ASSIGN_OPS: [BinOperator; 12] = [
     BinOperator::Assign, BinOperator::AssignAdd, BinOperator::AssignSubtract, BinOperator::AssignMultiply,
     BinOperator::AssignDivide, BinOperator::AssignModulo, BinOperator::AssignPow, BinOperator::AssignLShift,
     BinOperator::AssignRShift, BinOperator::AssignBitwiseAnd, BinOperator::AssignBitwiseOr, BinOperator::AssignXor,
 ];
 
-/// For every (declared cell type T, value type R, assignment operator) the checker accepts, and for
-/// every member choice of T and R: the update neither panics nor leaves a non-T in the cell, and what
-/// it yields is what it stored.  One harness per operator (macro) so that a failure names the operator.
+/// one (declared cell type T, value type R) cell of the table for operator `op`: if the checker
+/// accepts it, then for every member choice of T and R the update neither panics nor leaves a non-T
+/// in the cell, and what it yields is a T
+fn typed_cell(op: BinOperator, t: Ty, r: Ty, pow_guard: bool) -> bool {
+    let cell_type = Type::Mut(Arc::new(real(t)));
+    if !can_be_used(&cell_type, &real(r), op) {
+        return false;
+    }
+    let mut ko = 0;
+    while ko < n_vals(t) {
+        let mut kv = 0;
+        while kv < n_vals(r) {
+            let old = val(t, ko);
+            let v = val(r, kv);
+            if pow_guard {
+                if let Variable::Int(e) = &v { kani::assume(*e < 3); }
+            }
+            let cell = new_cell(real(t), old);
+            let res = assign_through(&Variable::Mut(cell.clone()), op, v);
+            let content = cell.variable.read().unwrap().clone();
+            assert!(in_ty(&content, t));
+            if let Ok(y) = &res {
+                assert!(in_ty(y, t));
+            }
+            kv += 1;
+        }
+        ko += 1;
+    }
+    true
+}
+/// One harness per operator (a failure names the operator).  The (T, R) pairs are the diagonal,
+/// the widening and the narrowing combinations of the universe.
 macro_rules! typed_content {
     ($name:ident, $opidx:expr, $pow_guard:expr) => {
         #[kani::proof]
-        #[kani::unwind(10)]
+        #[kani::unwind(5)]
         #[kani::stub(alloc::fmt::format, crate::verif_common::stub_format)]
         pub fn $name() {
             crate::verif_model::set_order(0);
             let op = ASSIGN_OPS[$opidx];
-            let mut accepted = 0usize;
-            let mut ti = 0;
-            while ti < CELL_TYPES.len() {
-                let t = CELL_TYPES[ti];
-                let mut ri = 0;
-                while ri < RHS_TYPES.len() {
-                    let r = RHS_TYPES[ri];
-                    let cell_type = Type::Mut(Arc::new(real(t)));
-                    if can_be_used(&cell_type, &real(r), op) {
-                        accepted += 1;
-                        let mut ko = 0;
-                        while ko < n_vals(t) {
-                            let mut kv = 0;
-                            while kv < n_vals(r) {
-                                let old = val(t, ko);
-                                let v = val(r, kv);
-                                if $pow_guard {
-                                    if let Variable::Int(e) = &v { kani::assume(*e < 3); }
-                                }
-                                let cell = new_cell(real(t), old);
-                                let res = assign_through(&Variable::Mut(cell.clone()), op, v);
-                                let content = cell.variable.read().unwrap().clone();
-                                assert!(in_ty(&content, t));
-                                if let Ok(y) = &res {
-                                    assert!(in_ty(y, t));
-                                }
-                                kv += 1;
-                            }
-                            ko += 1;
-                        }
-                    }
-                    ri += 1;
-                }
-                ti += 1;
-            }
+            let mut accepted = 0u32;
+            accepted += typed_cell(op, T_INT, T_INT, $pow_guard) as u32;
+            accepted += typed_cell(op, T_FLOAT, T_FLOAT, $pow_guard) as u32;
+            accepted += typed_cell(op, T_BOOL, T_BOOL, $pow_guard) as u32;
+            accepted += typed_cell(op, T_INT, T_FLOAT, $pow_guard) as u32;
+            accepted += typed_cell(op, T_U_INT_FLOAT, T_INT, $pow_guard) as u32;
+            accepted += typed_cell(op, T_U_INT_FLOAT, T_FLOAT, $pow_guard) as u32;
+            accepted += typed_cell(op, T_INT, T_U_INT_FLOAT, $pow_guard) as u32;
+            accepted += typed_cell(op, T_ARR_INT, T_ARR_INT, $pow_guard) as u32;
+            accepted += typed_cell(op, T_ARR_INT, T_ARR_FLOAT, $pow_guard) as u32;
+            accepted += typed_cell(op, T_ANY, T_INT, $pow_guard) as u32;
             // non-vacuity: the checker accepted at least one combination for this operator
             assert!(accepted > 0);
             kani::cover!(true);
